@@ -707,6 +707,8 @@ def pl_expr(e):
 
 
 def replay(obj):
+    if obj.get("kind") in ("no-failing-input-found", "correspondence") or obj.get("correspondence"):
+        return vlib.replay_correspondence(obj)
     r = obj.get("replay", obj)
     print(json.dumps(r, indent=1, default=str)[:3000])
     if "prql" in r:
